@@ -208,8 +208,10 @@ func (c15) Run(e *Env) {
 		for ; reqSeen < fab.NReqs(); reqSeen++ {
 			fresh = append(fresh, fab.Req(reqSeen))
 		}
-		if nDyn > 0 && fab.Gate.Len() >= maxReq {
-			e.Unstable("request-tokens-saturated-with-dynamic-headers")
+		if (nDyn > 0 || concMerge > 1) && fab.Gate.Len() >= maxReq {
+			// several bodies compete for the last request token: per-header bodies of one flush (Go map
+			// walk) or the merge goroutines of two flushes (concurrent-merge > 1)
+			e.Unstable("request-tokens-saturated")
 		}
 		sort.SliceStable(fresh, func(i, j int) bool {
 			if fresh[i].Canon != fresh[j].Canon {
@@ -384,10 +386,8 @@ func (c15) Run(e *Env) {
 		yP := yg.gate.Parked()
 		if len(reqP) >= maxReq {
 			e.Probe("max-requests-saturated")
-			if nDyn > 0 {
-				// which of a flush's per-header bodies got the last request token is decided by a Go
-				// map walk inside the forwarder
-				e.Unstable("request-tokens-saturated-with-dynamic-headers")
+			if nDyn > 0 || concMerge > 1 {
+				e.Unstable("request-tokens-saturated")
 			}
 		}
 		var idle []int
